@@ -1,5 +1,5 @@
 """C04 — transform is exactly the mapping described by the fitted values_orders."""
-from harness import C17, k_qualitative, k_string, k_transform, o_labels
+from harness import C17, k_dtypes, k_qualitative, k_string, k_transform, o_labels
 
 
 def obligations(tier):
@@ -8,6 +8,7 @@ def obligations(tier):
         ob.twin_every = 1
     return rebuilt + [
         k_transform.obligation(tier, {"C04"}, "O4.1a quantitative: label = first group whose upper bound >= value; float labels are group ranks; NaN rows per dropna"),
+        k_dtypes.obligation(tier, "O4.4 numeric pandas dtypes and magnitudes at transform time (int64/uint64/nullable columns up to 2**60, float32, object): every row gets the label of the first group whose upper bound is >= its value, compared exactly"),
         k_string.obligation(tier, "O4.3 numeric-looking qualitative values are matched through their string form (int -> str(int), integer-valued float -> str(int), others str(v)); a pre-existing equal string shares the group"),
         k_qualitative.obligation(tier, {"C04"}, "O4.1b qualitative: every known member (incl. numeric-valued ones) maps to its group's label"),
     ]
